@@ -40,7 +40,7 @@ struct Client {
 	// towards the daemon
 	std::string rx; size_t rx_off = 0; bool eof = false; int rx_err = 0; bool hup = false; size_t rdcap = 0; bool err_reported = false;
 	// from the daemon
-	std::string out; int64_t space = -1; size_t wcap = 0; bool blocked = false; int wr_err = 0; bool wr_fail_after_close = false; int wr_ok_left = 0; int cfg_fail_at = 0, cfg_fail_errno = 0; bool c19_broken_by_fault = false;
+	std::string out; int64_t space = -1; size_t wcap = 0; bool blocked = false; int wr_err = 0; bool wr_fail_after_close = false; int wr_ok_left = 0; int cfg_fail_at = 0, cfg_fail_errno = 0, epoll_add_errno = 0; bool c19_broken_by_fault = false;
 	uint64_t write_attempts_turn = 0;
 	InDec in; OutDec od; C10State c10; C19 *c19 = nullptr;
 	// oracle state
@@ -102,6 +102,7 @@ struct World : KernelHooks, ModelHost {
 	int on_accept(KFd &k, void *addr, unsigned *addrlen) override;
 	void on_close(KFd &k) override;
 	void on_timer_set(KFd &k, uint64_t ns) override;
+	void on_timer_create_failed() override;
 	void on_syscall(const char *name) override;
 	void hygiene(const std::string &rule, const std::string &detail) override;
 	void on_log(int pri, const std::string &line) override;
@@ -171,6 +172,7 @@ struct World : KernelHooks, ModelHost {
 	void c19_quiescent();
 	int classify_ws(Client &cl, const WsInFrame &wf);
 	bool wsstrict = false;
+	int last_accepted = -1;
 	int last_fed_client = -1; int presumed_drop = -1; std::string presumed_prop, presumed_rule, presumed_detail;
 	bool try_match(Client &cl, const Frame &f, std::string &why);
 	bool match_close(Client &cl);
